@@ -46,6 +46,21 @@ def scalar_programs(rng):
     # sum with a local computed before the call and read after it
     sm = Func("sum", [Arg("int", "n"), Arg("float", "w")], "float", Block([If(B("<=", n, I(0)), Block([Ret(F("0.0"))])), Decl("float", "mine", B("*", n, V("w"))), Decl("float", "rest", Call("sum", [B("-", n, I(1)), B("+", V("w"), F("0.5"))])), Ret(B("+", V("mine"), V("rest")))]))
     out.append(("recursive-sum-locals", mod([sm, Func("f", [Arg("int", "a"), Arg("float", "b")], "float", Block([Ret(Call("sum", [B("%", B("*", a, a), I(6)), b]))]), export=True)])))
+    # locals of aggregate type (nested arrays, a structure holding an array) in caller and callee, in every activation of a recursion and in a callee
+    # called twice: each activation owns its own, zero-initialised storage -- the inner rows / members too
+    T = Struct("T", [{"t": "int", "n": "cnt", "dims": [2]}, {"t": "int", "n": "k"}])
+    for nm, decl, cell, cell2, structs in (
+            ("array2", lambda x: Decl("int", x, None, dims=[2, 2]), lambda x: Idx(Idx(V(x), I(0)), I(1)), lambda x: Idx(Idx(V(x), I(1)), I(0)), []),
+            ("array3", lambda x: Decl("int", x, None, dims=[2, 2, 2]), lambda x: Idx(Idx(Idx(V(x), I(1)), I(0)), I(1)), lambda x: Idx(Idx(Idx(V(x), I(0)), I(1)), I(1)), []),
+            ("struct-array", lambda x: Decl("T", x, None), lambda x: Idx(Mem(V(x), "cnt"), I(1)), lambda x: Mem(V(x), "k"), [T])):
+        scratch = Func("scratch", [Arg("int", "k")], "int", Block([decl("t"), ES(A(cell("t"), B("+", cell("t"), B("*", V("k"), I(7))))), ES(A(cell2("t"), B("+", cell2("t"), B("+", V("k"), I(1))))),
+                                                                   Ret(B("+", cell("t"), cell2("t")))]))
+        out.append(("aggregate-local-caller-callee-" + nm, mod(structs + [scratch, Func("f", [Arg("int", "a"), Arg("int", "b")], "int",
+                   Block([decl("m"), ES(A(cell("m"), a)), ES(A(cell2("m"), B("*", b, I(2)))), Decl("int", "r", Call("scratch", [a])), Decl("int", "r2", Call("scratch", [b])),
+                          Ret(B("+", B("+", B("*", cell("m"), I(10000)), B("*", cell2("m"), I(100))), B("%", B("+", V("r"), V("r2")), I(97))))]), export=True)])))
+        rec = Func("rec", [Arg("int", "n")], "int", Block([decl("m"), ES(A(cell("m"), B("+", cell("m"), n))), Decl("int", "below", I(0)), If(B(">", n, I(0)), Block([ES(A(V("below"), Call("rec", [B("-", n, I(1))])))])),
+                                                          Ret(B("+", cell("m"), B("*", V("below"), I(10))))]))
+        out.append(("aggregate-local-recursion-" + nm, mod(structs + [rec, Func("f", [Arg("int", "a"), Arg("int", "b")], "int", Block([Ret(B("+", Call("rec", [B("%", a, I(5))]), Call("rec", [B("%", b, I(4))])))]), export=True)])))
     # overloads by int / float, argument conversion
     o1 = Func("o", [Arg("int", "p")], "int", Block([Ret(I(1))]))
     o2 = Func("o", [Arg("float", "p")], "int", Block([Ret(I(2))]))
